@@ -1,0 +1,16 @@
+//go:build verif
+
+// Verification hooks for property C10 (read-only): compiled only with -tags verif.
+
+package obfs2
+
+import "net"
+
+// VerifC10Buffered reports the number of bytes an obfs2 connection buffers on the
+// receive side: the transport keeps no buffer of its own (cipher.StreamReader decrypts
+// in place into the caller's slice), so n is always 0.  ok is false when c is not an
+// obfs2 connection.
+func VerifC10Buffered(c net.Conn) (n int, ok bool) {
+	_, ok = c.(*obfs2Conn)
+	return 0, ok
+}
